@@ -242,3 +242,113 @@ def _attach_samples():
 
 
 _attach_samples()
+
+
+# ---- group-size-check: which blocks read another transaction by absolute index -------------------------------------------------
+import z3                                                   # noqa: E402
+from pyvc.values import VRef, fresh_name                     # noqa: E402
+from pyvc.execbase import TYPEOF                             # noqa: E402
+import contracts.helpers  # noqa: F401,E402
+INS = T.Ref("Instruction")
+SVOF_ = None
+
+
+def _svof():
+    from contracts.engine import SVOF
+    return SVOF
+
+
+c = contract("tealer/analyses/utils/stack_ast_builder.py::construct_stack_ast", params={"bb": T.Ref("BasicBlock")},
+             returns=T.Dict(INS, T.Ref("KnownStackValue")), trusted=True, tags=["C11"],
+             trusted_reason="the stack AST of a block is faithful (C11: stack-effect table contracts + bounded stackcheck); naming: "
+                            "the node of instruction ins is SVOF(ins), the same node get_stack_value_for_ins returns")
+
+
+def _ast_map(bb, result):
+    ctx = current()
+    K = ctx.ex.ct.cls("BasicBlock")
+    ins, _ = ctx.ex.read_field(bb, K, "_instructions", ctx.st)
+    j = z3.Int(fresh_name("aj"))
+    it = ctx.ex.list_get(ins, j, ctx.st).term
+    n = ctx.ex.list_len(ins, ctx.st).term
+    return VBool(z3.ForAll([j], z3.Implies(z3.And(j >= 0, j < n), z3.And(
+        z3.Select(ctx.ex.dict_dom(result, ctx.st), it), z3.Select(ctx.ex.dict_map(result, ctx.st), it) == _svof()(it)))))
+
+
+ensures(c, "name", lambda bb, result: _ast_map(bb, result), naming=True)
+ensures(c, "index_operand", lambda bb, result: VBool(z3.BoolVal(True)))
+
+
+def _cls_in(term, names):
+    ct = current().ex.ct
+    return z3.Or([z3.And(TYPEOF(term) >= ct.lo[ct.cls(n)], TYPEOF(term) < ct.hi[ct.cls(n)]) for n in names])
+
+
+IMM = ["Gtxn", "Gtxna", "Gtxnas"]
+STK = ["Gtxns", "Gtxnsa", "Gtxnsas"]
+
+
+def _stack_read_of_literal(ins_term):
+    """a stack-indexed group read whose index operand is produced by a literal-pushing instruction (whatever its value)"""
+    ctx = current()
+    K = ctx.ex.ct.cls("KnownStackValue")
+    args, _ = ctx.ex.read_field(VRef(_svof()(ins_term), K, ctx.ex), K, "_args", ctx.st)
+    a0 = ctx.ex.list_get(args, 0, ctx.st)
+    known = IsInstance(a0, "KnownStackValue").term
+    kref = next(v for _, v in a0.alts if v.cls is K)
+    pusher, _ = ctx.ex.read_field(kref, K, "_ins", ctx.st)
+    return z3.And(_cls_in(ins_term, STK), known, _cls_in(pusher.term, ["Int", "PushInt", "IntcInstruction"]))
+
+
+def _abs_read(bb, upto=None, what="both"):
+    ctx = current()
+    K = ctx.ex.ct.cls("BasicBlock")
+    ins, _ = ctx.ex.read_field(bb, K, "_instructions", ctx.st)
+    j = z3.Int(fresh_name("rj"))
+    it = ctx.ex.list_get(ins, j, ctx.st).term
+    n = ctx.ex.list_len(ins, ctx.st).term if upto is None else upto
+    body = {"imm": _cls_in(it, IMM), "stk": _stack_read_of_literal(it)}
+    cond = z3.Or(body["imm"], body["stk"]) if what == "both" else body[what]
+    return z3.Exists([j], z3.And(j >= 0, j < n, cond))
+
+
+c = contract(D + "groupsize.py::MissingGroupSize._accessed_using_absolute_index", params={"bb": T.Ref("BasicBlock")}, returns=T.Bool,
+             ghost={"v": T.Abs("Visit")}, tags=["C01", "C03"], touch=["bb"], raises=[("TealerException", None)])
+requires(c, "operands", lambda bb: VBool(_operands_ok(bb)))
+ensures(c, "exact", lambda bb, result: Iff(result, VBool(_abs_read(bb))),
+        note="true iff the block holds gtxn / gtxna / gtxnas, or gtxns / gtxnsa / gtxnsas whose index operand is pushed by int, "
+             "pushint or intc* -- whatever the pushed value (0 included) and whether or not tealer can resolve it")
+
+
+def _operands_ok(bb):
+    """C11 for the instructions concerned: the node of a stack-indexed group read has at least one operand"""
+    ctx = current()
+    KS = ctx.ex.ct.cls("KnownStackValue")
+    x = z3.Int(fresh_name("ox"))
+    args, _ = ctx.ex.read_field(VRef(_svof()(x), KS, ctx.ex), KS, "_args", ctx.st)
+    return z3.ForAll([x], z3.Implies(_cls_in(x, STK), ctx.ex.list_len(args, ctx.st).term >= 1), patterns=[_svof()(x)])
+
+
+def _collected(bb, lst, upto):
+    """stack_gtxns_ins holds exactly the stack-indexed group reads among the first `upto` instructions"""
+    ctx = current()
+    K = ctx.ex.ct.cls("BasicBlock")
+    ins, _ = ctx.ex.read_field(bb, K, "_instructions", ctx.st)
+    j, k = z3.Int(fresh_name("cj")), z3.Int(fresh_name("ck"))
+    it = ctx.ex.list_get(ins, j, ctx.st).term
+    el = ctx.ex.list_get(lst, k, ctx.st).term
+    nl = ctx.ex.list_len(lst, ctx.st).term
+    return z3.And(
+        z3.ForAll([k], z3.Implies(z3.And(k >= 0, k < nl), z3.And(_cls_in(el, STK), z3.Exists([j], z3.And(j >= 0, j < upto, it == el)))),
+                  patterns=[el]),
+        z3.ForAll([j], z3.Implies(z3.And(j >= 0, j < upto, _cls_in(it, STK)), z3.Exists([k], z3.And(k >= 0, k < nl, el == it))),
+                  patterns=[it]))
+
+
+invariant(c, 1, "ins", lambda it, i, bb, stack_gtxns_ins: And(
+    i <= Len(it), Not(VBool(_abs_read(bb, upto=i.term, what="imm"))), VBool(_collected(bb, stack_gtxns_ins, i.term))), label="scan")
+invariant(c, 2, "ins", lambda it, i, bb: And(
+    i <= Len(it), VBool(z3.ForAll([z3.Int("sk")], z3.Implies(z3.And(z3.Int("sk") >= 0, z3.Int("sk") < i.term), z3.Not(
+        _stack_read_of_literal(current().ex.list_get(it, z3.Int("sk"), current().st).term)))))), label="none_so_far")
+must_fail(c, "always", lambda result: result)
+must_fail(c, "never", lambda result: Not(result))
